@@ -271,6 +271,72 @@ var targets = []Target{
 		Params: "(cur : Z)", Ret: "Z",
 		Stmt: "if ch.mutable.state < ChannelStartClose {", AssignRet: "ch.mutable.state", Rest: "cur",
 		Hints: map[string]string{"ch.mutable.state": "cur"}},
+	// C07, second strengthening (GenClose2.v).
+	// (1) inbound.go InboundCallResponse.SendSystemError: the statements after setSpanErrorDetails --
+	// the error frame must be handed to the connection BEFORE doneSending() shuts the exchange down
+	// (the removal of the last exchange closes a draining connection, which then refuses to send).
+	// The marker of doneSending mentions the marker of the send: the pinned order leaves it unbound.
+	{Func: "InboundCallResponse.SendSystemError", Out: "handlerErrOrder", File: "GenClose2", Soft: true,
+		Params: "", Ret: "Z",
+		Stmt: "response.setSpanErrorDetails(err)", After: true, Rest: "",
+		Hints: map[string]string{"sendErr": "(1 + shut_down)"},
+		SHints: map[string]string{
+			"span := CurrentSpan(response.mex.ctx)":                                    "",
+			"sendErr := response.conn.SendSystemError(response.mex.msgID, *span, err)": "let error_queued := 0 in",
+			"response.doneSending()":                                                   "let shut_down := error_queued in",
+			"response.call.releasePreviousFragment()":                                  "",
+		}},
+	// (2) connection.go handlePingReq: which states refuse a ping (1 = the ping res is sent,
+	// 0 = protocolError).
+	{Func: "Connection.handlePingReq", Out: "pingReqAnswer", File: "GenClose2", Soft: true,
+		Params: "(cur : Z)", Ret: "Z",
+		Stmt: "if state := c.readState(); state == connectionClosed {", Rest: "1", NakedRetW: "proto_err",
+		Hints: map[string]string{"c.readState()": "cur"},
+		SHints: map[string]string{
+			"c.protocolError(frame.Header.ID, errConnNotActive{\"ping on incoming\", state})": "let proto_err := 0 in",
+		}},
+	// (3) relay.go: every function that ENDS a relay item gives back the unit of Relayer.pending
+	// taken at admission exactly when it took the item (ok), whichever side of the call it is on
+	// (isOriginator), and the admission path gives it back when no destination is available.
+	// The translated value is the pending counter after the function.
+	{Func: "Relayer.timeoutRelayItem", Out: "relayTimeoutPending", File: "GenClose2", Soft: true,
+		Params: "(ok : bool) (isOriginator : bool) (pending : Z)", Ret: "Z",
+		Stmt: "item, ok := items.Entomb(id, _relayTombTTL)", After: true, Rest: "pending", NakedRetW: "pending",
+		SHints: map[string]string{
+			"verifPoint(...": "",
+			"r.conn.SendSystemError(id, item.span, ErrTimeout)": "",
+			"item.call.Failed(\"timeout\")":                     "",
+			"item.call.End()":                                   "",
+			"r.decrementPending()":                              "let pending := pending - 1 in",
+		}},
+	{Func: "Relayer.failRelayItem", Out: "relayFailPending", File: "GenClose2", Soft: true,
+		Params: "(found : bool) (stopped : bool) (ok : bool) (isOriginator : bool) (slow : bool) (pending : Z)", Ret: "Z",
+		Stmt: "item, stopped, found := items.Get(id, true", After: true, Rest: "pending", NakedRetW: "pending",
+		Hints: map[string]string{"item.isOriginator": "isOriginator", "reason != _relayErrorSourceConnSlow": "(negb slow)"},
+		SHints: map[string]string{
+			"items.logger.WithFields(...":                 "",
+			"item, ok := items.Entomb(id, _relayTombTTL)": "",
+			"r.conn.SendSystemError(...":                  "",
+			"item.call.Failed(reason)":                    "",
+			"item.call.End()":                             "",
+			"r.decrementPending()":                        "let pending := pending - 1 in",
+		}},
+	{Func: "Relayer.finishRelayItem", Out: "relayFinishPending", File: "GenClose2", Soft: true,
+		Params: "(ok : bool) (isOriginator : bool) (pending : Z)", Ret: "Z",
+		Stmt: "item, ok := items.deleteCall(id, lookedUp)", After: true, Rest: "pending", NakedRetW: "pending",
+		Hints: map[string]string{"item.isOriginator": "isOriginator"},
+		SHints: map[string]string{
+			"item.call.End()":      "",
+			"r.decrementPending()": "let pending := pending - 1 in",
+		}},
+	{Func: "Relayer.handleCallReq", Out: "relayNoDestPending", File: "GenClose2", Soft: true, RetIdx: 0,
+		Params: "(no_dest : bool) (pending : Z)", Ret: "Z",
+		Stmt: "if err != nil || !ok {", Rest: "pending",
+		Hints: map[string]string{"err != nil || !ok": "no_dest", "_relayShouldRelease": "pending"},
+		SHints: map[string]string{
+			"r.decrementPending()": "let pending := pending - 1 in",
+			"call.End()":           "",
+		}},
 	// relay.go (C09): Relayer.canHandleNewCall -- the admission decision taken under the connection's
 	// state read-lock (the closure runs in place; the pending increment it guards is the model's
 	// ICanHandle / IRemoteCan action) -- and Relayer.canClose (the LDrained guard of the model)
